@@ -49,11 +49,59 @@ def _model(chk: Check) -> bool:
 def _restricted_pickle_entries() -> list[serializers.Entry]:
     from easynetwork.serializers.pickle import PickleSerializer
 
-    class NoGlobals(pickle.Unpickler):
+    class NoGlobals(pickle._Unpickler):  # type: ignore[name-defined,misc]
         def find_class(self, module: str, name: str) -> Any:  # hostile opcodes cannot import anything
             raise pickle.UnpicklingError(f"global {module}.{name} is forbidden")
 
-    return [serializers.Entry("PickleSerializer(restricted)", lambda: PickleSerializer(unpickler_cls=NoGlobals), serializers._json_value, incremental=False)]
+    # Objects whose reconstruction runs their own constructor on what the stream says: a corrupted argument makes that constructor raise its
+    # own exception class (ZeroDivisionError, decimal.InvalidOperation, re.error, ...).  Only these harmless globals can be resolved.
+    allowed = {
+        ("fractions", "Fraction"),
+        ("decimal", "Decimal"),
+        ("re", "_compile"),
+        ("datetime", "datetime"),
+        ("datetime", "date"),
+        ("datetime", "timedelta"),
+        ("builtins", "complex"),
+        ("uuid", "UUID"),
+        ("ipaddress", "IPv4Address"),
+        ("collections", "OrderedDict"),
+    }
+
+    class AllowList(pickle._Unpickler):  # type: ignore[name-defined,misc]
+        def find_class(self, module: str, name: str) -> Any:
+            if (module, name) in allowed:
+                return super().find_class(module, name)
+            raise pickle.UnpicklingError(f"global {module}.{name} is forbidden")
+
+    def objects(rng: random.Random) -> Any:
+        import collections
+        import datetime
+        import decimal
+        import fractions
+        import ipaddress
+        import re
+        import uuid
+
+        return rng.choice(
+            [
+                lambda: fractions.Fraction(rng.randint(1, 99), rng.randint(1, 9)),
+                lambda: decimal.Decimal(f"{rng.randint(1, 999)}.{rng.randint(0, 9)}"),
+                lambda: re.compile(rng.choice(["a+b", "(x|y)*z", "[a-c]{2}"])),
+                lambda: datetime.datetime(2024, rng.randint(1, 12), rng.randint(1, 28), 10, 30),
+                lambda: datetime.timedelta(days=rng.randint(0, 9), seconds=rng.randint(0, 99)),
+                lambda: complex(rng.randint(0, 9), rng.randint(0, 9)),
+                lambda: uuid.UUID(int=rng.getrandbits(128)),
+                lambda: ipaddress.IPv4Address(rng.getrandbits(32)),
+                lambda: collections.OrderedDict(a=rng.randint(0, 9)),
+                lambda: [fractions.Fraction(1, 3), decimal.Decimal("2.5")],
+            ]
+        )()
+
+    return [
+        serializers.Entry("PickleSerializer(restricted)", lambda: PickleSerializer(unpickler_cls=NoGlobals), serializers._json_value, incremental=False),
+        serializers.Entry("PickleSerializer(allow-list)", lambda: PickleSerializer(unpickler_cls=AllowList), objects, incremental=False),
+    ]
 
 
 def _oneshot(entry: serializers.Entry, data: bytes) -> str:
@@ -166,6 +214,9 @@ def run(chk: Check) -> None:
             fuzz: list[bytes] = []
             for v in valid_one + ([valid_stream] if valid_stream else []):
                 fuzz += mutate.mutations(v, rng, nmut)
+            if "allow-list" in e.name:
+                for _ in range(6 if quick else 40):
+                    fuzz += mutate.single_byte_sweep(e.datagram_protocol().make_datagram(e.gen(rng)))
             if "JSON" in e.name or "Line" in e.name or "Base64" in e.name or "AutoSep" in e.name:
                 fuzz += mutate.extreme_inputs(rng, 65536) if (not quick or "JSON" in e.name) else mutate.extreme_inputs(rng, 65536)[:3]
             for data in fuzz:
@@ -214,7 +265,7 @@ def run(chk: Check) -> None:
         )
     chk.assumptions += [
         "TLC decides every parse step against the outcome alphabet and the progress law; the input space itself is explored by the seeded fuzzer, not by TLC",
-        "pickle is fuzzed through a restricted unpickler (find_class always refuses) so that hostile opcodes cannot execute anything",
+        "pickle is fuzzed through restricted unpicklers (find_class refuses everything, or everything but a short allow-list of harmless value classes whose constructors then run on corrupted arguments) so that hostile opcodes cannot execute anything; these unpicklers derive from the pure-Python implementation (pickle._Unpickler): the C one answers a corrupted LONG_BINPUT index by allocating a multi-gigabyte memo table (measured: 25 GB and 22 s for an 81-byte input, ending in UnpicklingError) which is the interpreter's doing and would endanger the run",
         "cbor / msgpack serializers are not importable offline",
     ]
 
